@@ -91,4 +91,643 @@ theorem nn_setExpires_digits (pf : PFromBody) (val : List UInt8) (hd : AllDigits
     (setExpires pf val).expires = min (decOf val) 4294967295 := by
   rw [(nn_setExpires_any pf val).2, nnDigPre_of_digits val hd]
 
+/-! ### C. the numeric fields and the effect of one parameter on them -/
+
+/-- the fields of the object that the `expires` and `q` parameters may change -/
+structure NnNum where
+  hasExpires : Bool := false
+  expires : Nat := 0
+  q : Nat := 0
+  paramErr : Err := .ok
+  errOffs : Nat := 0
+  deriving DecidableEq, Repr, Inhabited
+
+def PFromBody.nnNum (pf : PFromBody) : NnNum := ⟨pf.hasExpires, pf.expires, pf.q, pf.paramErr, pf.errOffs⟩
+
+/-- an otherwise empty object carrying the numeric fields and the value offsets (all that `setQ` reads) -/
+def nnOfNum (m : NnNum) (vs ve : Nat) : PFromBody :=
+  { hasExpires := m.hasExpires, expires := m.expires, q := m.q, paramErr := m.paramErr, errOffs := m.errOffs, vstart := vs, vend := ve }
+
+/-- the `q` branch of `setFromParamVal` on the numeric fields (characterised in section E) -/
+def nnSetQ (m : NnNum) (vs ve : Nat) (val : List UInt8) : NnNum := (setQ (nnOfNum m vs ve) val).nnNum
+
+/-- what a parameter with name `[ps, pe)` and value `[vs, ve)` does to the numeric fields -/
+def nnEffect (b : Buf) (ps pe vs ve : Nat) (m : NnNum) : NnNum :=
+  if ps < pe ∧ vs < ve then
+    if cmpEqL (b.extract ps pe) sExpires then
+      { m with hasExpires := true, expires := min (decOf (nnDigPre (b.extract vs ve).toList)) 4294967295 }
+    else if cmpEqL (b.extract ps pe) sQ then nnSetQ m vs ve (b.extract vs ve).toList
+    else m
+  else if ps < pe ∧ vs = ve then m
+  else { m with paramErr := .valBad, errOffs := trunc16 vs }
+
+theorem NnNum.ext' {x y : NnNum} (h1 : x.hasExpires = y.hasExpires) (h2 : x.expires = y.expires) (h3 : x.q = y.q)
+    (h4 : x.paramErr = y.paramErr) (h5 : x.errOffs = y.errOffs) : x = y := by
+  cases x; cases y; simp_all
+
+theorem nn_setQ_num (pf : PFromBody) (val : List UInt8) :
+    (setQ pf val).nnNum = nnSetQ pf.nnNum pf.vstart pf.vend val := by
+  obtain ⟨e1, e2, e3⟩ := setQ_congr pf (nnOfNum pf.nnNum pf.vstart pf.vend) val rfl rfl rfl rfl rfl
+  obtain ⟨_, _, o3, o4⟩ := setQ_other pf val
+  obtain ⟨_, _, p3, p4⟩ := setQ_other (nnOfNum pf.nnNum pf.vstart pf.vend) val
+  exact NnNum.ext' (o3.trans p3.symm) (o4.trans p4.symm) e1 e2 e3
+
+/-- **frame**: the numeric fields after `setFromParamVal` are `nnEffect` of the numeric fields before (name and value
+    inside the buffer, so that Go does not panic); nothing else of the object is read -/
+theorem nn_sfp_num (b : Buf) (pf : PFromBody) (h1 : pf.pend ≤ b.size) (h2 : pf.vend ≤ b.size) :
+    (setFromParamVal b pf).nnNum = nnEffect b pf.pstart pf.pend pf.vstart pf.vend pf.nnNum := by
+  unfold setFromParamVal nnEffect
+  by_cases c1 : pf.pstart < pf.pend ∧ pf.vstart < pf.vend
+  · have c1' : (decide (pf.pstart < pf.pend) && decide (pf.vstart < pf.vend)) = true := by simp [c1.1, c1.2]
+    rw [if_pos c1', if_pos c1]
+    rw [slice?_some b pf.pstart pf.pend (by omega) (by omega), slice?_some b pf.vstart pf.vend (by omega) (by omega)]
+    simp only
+    by_cases t1 : cmpEqL (b.extract pf.pstart pf.pend) sTag = true
+    · have hl := cmpEqL_len t1
+      have t2 : cmpEqL (b.extract pf.pstart pf.pend) sExpires = false := cmpEqL_false_of_len (by rw [hl]; decide)
+      have t3 : cmpEqL (b.extract pf.pstart pf.pend) sQ = false := cmpEqL_false_of_len (by rw [hl]; decide)
+      simp only [t1, t2, t3, Bool.false_eq_true, ↓reduceIte]; rfl
+    · simp only [t1, Bool.false_eq_true, ↓reduceIte]
+      by_cases t2 : cmpEqL (b.extract pf.pstart pf.pend) sExpires = true
+      · simp only [t2, ↓reduceIte]
+        have he := nn_setExpires_any pf (b.extract pf.vstart pf.vend).toList
+        exact NnNum.ext' he.1 he.2 rfl rfl rfl
+      · simp only [t2, Bool.false_eq_true, ↓reduceIte]
+        by_cases t3 : cmpEqL (b.extract pf.pstart pf.pend) sQ = true
+        · simp only [t3, ↓reduceIte]
+          exact nn_setQ_num pf _
+        · simp only [t3, Bool.false_eq_true, ↓reduceIte]
+          by_cases t4 : cmpEqL (b.extract pf.pstart pf.pend) sLr = true
+          · simp only [t4, ↓reduceIte]; rfl
+          · simp only [t4, Bool.false_eq_true, ↓reduceIte]; rfl
+  · have c1' : (decide (pf.pstart < pf.pend) && decide (pf.vstart < pf.vend)) = false := by
+      cases hx : (decide (pf.pstart < pf.pend) && decide (pf.vstart < pf.vend)) with
+      | false => rfl
+      | true => simp only [Bool.and_eq_true, decide_eq_true_eq] at hx; exact absurd hx c1
+    rw [c1', if_neg c1]
+    simp only [Bool.false_eq_true, ↓reduceIte]
+    by_cases c2 : pf.pstart < pf.pend ∧ pf.vstart = pf.vend
+    · have c2' : (decide (pf.pstart < pf.pend) && pf.vstart == pf.vend) = true := by simp [c2.1, c2.2]
+      rw [if_pos c2', if_pos c2]
+      rw [slice?_some b pf.pstart pf.pend (by omega) (by omega)]
+      simp only
+      split <;> rfl
+    · have c2' : (decide (pf.pstart < pf.pend) && pf.vstart == pf.vend) = false := by
+        cases hx : (decide (pf.pstart < pf.pend) && pf.vstart == pf.vend) with
+        | false => rfl
+        | true => simp only [Bool.and_eq_true, decide_eq_true_eq, beq_iff_eq] at hx; exact absurd hx c2
+      rw [c2', if_neg c2]
+      simp only [Bool.false_eq_true, ↓reduceIte]; rfl
+
+/-! ### D. the loop invariant: the numeric fields are the fold of `nnEffect` over recorded spans -/
+
+/-- a recorded parameter span: the name `[ps, pe)` is not empty and starts at or after `o`; either there is no value
+    text (`vs = ve`) or the value `[vs, ve)` is not empty and lies after the name; everything ends at or before `lim` -/
+def NnSpanOk (o lim : Nat) (x : PSpan) : Prop :=
+  o ≤ x.ps ∧ x.ps < x.pe ∧ x.pe ≤ lim ∧ (x.vs = x.ve ∨ (x.pe < x.vs ∧ x.vs < x.ve ∧ x.ve ≤ lim))
+
+theorem NnSpanOk.mono {o i j : Nat} {x : PSpan} (h : NnSpanOk o i x) (hij : i ≤ j) : NnSpanOk o j x := by
+  obtain ⟨h1, h2, h3, h4⟩ := h
+  refine ⟨h1, h2, by omega, ?_⟩
+  rcases h4 with h4 | h4
+  · exact Or.inl h4
+  · exact Or.inr ⟨h4.1, h4.2.1, by have := h4.2.2; omega⟩
+
+/-- the numeric fields after all parameters of the list, in order -/
+def nnAll (b : Buf) (L : List PSpan) (m : NnNum) : NnNum := L.foldl (fun m x => nnEffect b x.ps x.pe x.vs x.ve m) m
+
+/-- the numeric fields `m` are what the parameters at the spans `L` (in order) do to `m0` -/
+def NnAcc (b : Buf) (m0 : NnNum) (o lim : Nat) (m : NnNum) : Prop :=
+  ∃ L : List PSpan, m = nnAll b L m0 ∧ ∀ x ∈ L, NnSpanOk o lim x
+
+theorem NnAcc.mono {b : Buf} {m0 m : NnNum} {o i j : Nat} (h : NnAcc b m0 o i m) (hij : i ≤ j) : NnAcc b m0 o j m := by
+  obtain ⟨L, h1, h2⟩ := h
+  exact ⟨L, h1, fun x hx => (h2 x hx).mono hij⟩
+
+theorem nn_all_snoc (b : Buf) (L : List PSpan) (x : PSpan) (m : NnNum) :
+    nnAll b (L ++ [x]) m = nnEffect b x.ps x.pe x.vs x.ve (nnAll b L m) := by
+  unfold nnAll
+  rw [List.foldl_append]
+  rfl
+
+theorem NnAcc.snoc {b : Buf} {m0 m : NnNum} {o i : Nat} (h : NnAcc b m0 o i m) (x : PSpan) (hx : NnSpanOk o i x) :
+    NnAcc b m0 o i (nnEffect b x.ps x.pe x.vs x.ve m) := by
+  obtain ⟨L, h1, h2⟩ := h
+  refine ⟨L ++ [x], by rw [nn_all_snoc, h1], ?_⟩
+  intro y hy
+  rcases List.mem_append.1 hy with hy | hy
+  · exact h2 y hy
+  · rw [List.mem_singleton.1 hy]; exact hx
+
+/-- what a returned object satisfies -/
+def NnOut (b : Buf) (m0 : NnNum) (o lim : Nat) (pf : PFromBody) : Prop :=
+  lim ≤ b.size ∧ NnAcc b m0 o lim pf.nnNum
+
+theorem NnOut.mono {b : Buf} {m0 : NnNum} {o i j : Nat} {pf : PFromBody} (h : NnOut b m0 o i pf) (hij : i ≤ j)
+    (hj : j ≤ b.size) : NnOut b m0 o j pf := ⟨hj, h.2.mono hij⟩
+
+/-- the four work offsets, by automaton state -/
+def nnPend (o i : Nat) (st : FBState) (ps pe vs ve : Nat) : Prop :=
+  match st with
+  | .paramName | .possibleParamName => o ≤ ps ∧ ps < i ∧ vs = ve
+  | .paramNameEnd | .possibleParamNameEnd => o ≤ ps ∧ ps < pe ∧ vs = ve
+  | .newParamVal | .newPossibleVal => o ≤ ps ∧ ps < pe ∧ pe < vs ∧ vs ≤ i
+  | .paramVal | .possibleVal | .quotedVal | .quotedPossibleVal => o ≤ ps ∧ ps < pe ∧ pe < vs ∧ vs < i
+  | .paramValEnd | .possibleValEnd => o ≤ ps ∧ ps < pe ∧ pe < vs ∧ vs < ve
+  | _ => pe ≤ ps ∧ vs = ve
+
+theorem nnPend_mono {o i j : Nat} {st : FBState} {ps pe vs ve : Nat} (h : nnPend o i st ps pe vs ve) (hij : i ≤ j) :
+    nnPend o j st ps pe vs ve := by
+  cases st <;> simp only [nnPend] at h ⊢ <;> omega
+
+/-- **the loop invariant** -/
+structure NnInv (b : Buf) (m0 : NnNum) (o i : Nat) (pf : PFromBody) : Prop where
+  oi : o ≤ i
+  hi : i ≤ b.size
+  pend : pf.pend ≤ i
+  vend : pf.vend ≤ i
+  pk : nnPend o i pf.state pf.pstart pf.pend pf.vstart pf.vend
+  acc : NnAcc b m0 o i pf.nnNum
+
+theorem NnInv.mono {b : Buf} {m0 : NnNum} {o i j : Nat} {pf : PFromBody} (h : NnInv b m0 o i pf) (hij : i ≤ j)
+    (hj : j ≤ b.size) : NnInv b m0 o j pf :=
+  ⟨by have := h.oi; omega, hj, by have := h.pend; omega, by have := h.vend; omega, nnPend_mono h.pk hij, h.acc.mono hij⟩
+
+theorem NnInv.out {b : Buf} {m0 : NnNum} {o i : Nat} {pf : PFromBody} (h : NnInv b m0 o i pf) : NnOut b m0 o i pf :=
+  ⟨h.hi, h.acc⟩
+
+/-- the invariant only looks at the state, the work offsets and the parameter-dependent fields -/
+theorem NnInv.congr {b : Buf} {m0 : NnNum} {o i : Nat} {pf pf' : PFromBody} (h : NnInv b m0 o i pf)
+    (h1 : pf'.state = pf.state) (h2 : pf'.pstart = pf.pstart) (h3 : pf'.pend = pf.pend) (h4 : pf'.vstart = pf.vstart)
+    (h5 : pf'.vend = pf.vend) (h6 : pf'.nnNum = pf.nnNum) : NnInv b m0 o i pf' :=
+  ⟨h.oi, h.hi, by rw [h3]; exact h.pend, by rw [h5]; exact h.vend, by rw [h1, h2, h3, h4, h5]; exact h.pk,
+   by rw [h6]; exact h.acc⟩
+
+theorem NnOut.congr {b : Buf} {m0 : NnNum} {o i : Nat} {pf pf' : PFromBody} (h : NnOut b m0 o i pf)
+    (h6 : pf'.nnNum = pf.nnNum) : NnOut b m0 o i pf' := ⟨h.1, by rw [h6]; exact h.2⟩
+
+/-! #### `setFromParamVal` under the invariant -/
+
+theorem nn_sfp_acc (b : Buf) (pf : PFromBody) (h1 : pf.pend ≤ b.size) (h2 : pf.vend ≤ b.size) :
+    (setFromParamVal b pf).nnNum = nnEffect b pf.pstart pf.pend pf.vstart pf.vend pf.nnNum ∧
+    (setFromParamVal b pf).state = pf.state ∧ (setFromParamVal b pf).pstart = 0 ∧ (setFromParamVal b pf).pend = 0 ∧
+    (setFromParamVal b pf).vstart = 0 ∧ (setFromParamVal b pf).vend = 0 := by
+  refine ⟨nn_sfp_num b pf h1 h2, ?_⟩
+  rw [setFromParamVal_eq b pf h1 h2]
+  exact ⟨rfl, rfl, rfl, rfl, rfl⟩
+
+/-- storing a parameter: the span joins the list -/
+theorem nn_sfp_out {b : Buf} {m0 : NnNum} {o i : Nat} (pf : PFromBody) (hi : i ≤ b.size) (hpe : pf.pend ≤ i)
+    (hve : pf.vend ≤ i) (hsp : NnSpanOk o i ⟨pf.pstart, pf.pend, pf.vstart, pf.vend⟩) (hacc : NnAcc b m0 o i pf.nnNum) :
+    NnOut b m0 o i (setFromParamVal b pf) := by
+  have h := nn_sfp_acc b pf (by omega) (by omega)
+  refine ⟨hi, ?_⟩
+  rw [h.1]
+  exact hacc.snoc ⟨pf.pstart, pf.pend, pf.vstart, pf.vend⟩ hsp
+
+theorem nn_sfp_inv {b : Buf} {m0 : NnNum} {o i j : Nat} (pf : PFromBody) (hoi : o ≤ i) (hi : i ≤ b.size) (hpe : pf.pend ≤ i)
+    (hve : pf.vend ≤ i) (hsp : NnSpanOk o i ⟨pf.pstart, pf.pend, pf.vstart, pf.vend⟩) (hacc : NnAcc b m0 o i pf.nnNum)
+    (hst : pf.state = .newParam ∨ pf.state = .newPossibleParam) (hij : i ≤ j) (hj : j ≤ b.size) :
+    NnInv b m0 o j (setFromParamVal b pf) := by
+  have h := nn_sfp_acc b pf (by omega) (by omega)
+  have ho := nn_sfp_out pf hi hpe hve hsp hacc
+  refine ⟨by omega, hj, by rw [h.2.2.2.1]; omega, by rw [h.2.2.2.2.2]; omega, ?_, ho.2.mono hij⟩
+  rw [h.2.1, h.2.2.1, h.2.2.2.1, h.2.2.2.2.1, h.2.2.2.2.2]
+  rcases hst with g | g <;> rw [g] <;> exact ⟨Nat.le_refl _, rfl⟩
+
+/-! #### the end-of-value code -/
+
+def nnPf1 (pf : PFromBody) (e : Nat) : PFromBody :=
+  if pf.state == .paramName || pf.state == .possibleParamName then { pf with pend := e } else pf
+
+def nnPf2 (b : Buf) (pf : PFromBody) (e : Nat) : PFromBody :=
+  if (nnPf1 pf e).pstart < (nnPf1 pf e).pend then setFromParamVal b (nnPf1 pf e) else nnPf1 pf e
+
+theorem nn_eohPN_acc (b : Buf) (pf : PFromBody) (e : Nat) : (naEOHParamName b pf e).nnNum = (nnPf2 b pf e).nnNum := by
+  show ((if (nnPf2 b pf e).params.offs != 0 then (nnPf2 b pf e).extParams e else nnPf2 b pf e).extV e).nnNum = _
+  generalize nnPf2 b pf e = pf2
+  split <;> rfl
+
+/-- parameter-name states at the end of the value -/
+theorem nn_eohPN {b : Buf} {m0 : NnNum} {o i : Nat} {pf : PFromBody} (hI : NnInv b m0 o i pf) (e : Nat)
+    (hst : pf.state = .newParam ∨ pf.state = .newPossibleParam ∨ ((pf.state = .paramName ∨ pf.state = .possibleParamName) ∧ e = i) ∨
+      pf.state = .paramNameEnd ∨ pf.state = .possibleParamNameEnd) :
+    NnOut b m0 o i (naEOHParamName b pf e) := by
+  obtain ⟨h1, h2, h3, h4, h5, h6⟩ := hI
+  refine NnOut.congr (pf := nnPf2 b pf e) ?_ (nn_eohPN_acc b pf e)
+  unfold nnPf2 nnPf1
+  rcases hst with g | g | ⟨g | g, rfl⟩ | g | g <;> simp +decide only [g, ↓reduceIte] <;> simp only [g, nnPend] at h5
+  · rw [if_neg (by omega)]; exact ⟨h2, h6⟩
+  · rw [if_neg (by omega)]; exact ⟨h2, h6⟩
+  · rw [if_pos (by show pf.pstart < e; omega)]
+    exact nn_sfp_out _ h2 (Nat.le_refl _) h4 ⟨h5.1, h5.2.1, Nat.le_refl _, Or.inl h5.2.2⟩ h6
+  · rw [if_pos (by show pf.pstart < e; omega)]
+    exact nn_sfp_out _ h2 (Nat.le_refl _) h4 ⟨h5.1, h5.2.1, Nat.le_refl _, Or.inl h5.2.2⟩ h6
+  · rw [if_pos h5.2.1]
+    exact nn_sfp_out _ h2 h3 h4 ⟨h5.1, h5.2.1, h3, Or.inl h5.2.2⟩ h6
+  · rw [if_pos h5.2.1]
+    exact nn_sfp_out _ h2 h3 h4 ⟨h5.1, h5.2.1, h3, Or.inl h5.2.2⟩ h6
+
+/-- value states at the end of the value (the value ends at the current position) -/
+theorem nn_eohPV {b : Buf} {m0 : NnNum} {o i : Nat} {pf : PFromBody} (hI : NnInv b m0 o i pf)
+    (hst : pf.state = .paramVal ∨ pf.state = .possibleVal) : NnOut b m0 o i (naEOHVal b pf i) := by
+  obtain ⟨h1, h2, h3, h4, h5, h6⟩ := hI
+  refine NnOut.congr (pf := setFromParamVal b { pf with vend := i }) ?_ rfl
+  have h5' : o ≤ pf.pstart ∧ pf.pstart < pf.pend ∧ pf.pend < pf.vstart ∧ pf.vstart < i := by
+    rcases hst with g | g <;> simpa only [g, nnPend] using h5
+  exact nn_sfp_out _ h2 h3 (Nat.le_refl _) ⟨h5'.1, h5'.2.1, h3, Or.inr ⟨h5'.2.2.1, h5'.2.2.2, Nat.le_refl _⟩⟩ h6
+
+theorem nn_eohNV {b : Buf} {m0 : NnNum} {o i : Nat} {pf : PFromBody} (hI : NnInv b m0 o i pf)
+    (hst : pf.state = .newParamVal ∨ pf.state = .newPossibleVal) :
+    NnOut b m0 o i (naEOHVal b { pf with vstart := i } i) := by
+  obtain ⟨h1, h2, h3, h4, h5, h6⟩ := hI
+  refine NnOut.congr (pf := setFromParamVal b { pf with vstart := i, vend := i }) ?_ rfl
+  have h5' : o ≤ pf.pstart ∧ pf.pstart < pf.pend ∧ pf.pend < pf.vstart ∧ pf.vstart ≤ i := by
+    rcases hst with g | g <;> simpa only [g, nnPend] using h5
+  exact nn_sfp_out _ h2 h3 (Nat.le_refl _) ⟨h5'.1, h5'.2.1, h3, Or.inl rfl⟩ h6
+
+theorem nn_eohPVE {b : Buf} {m0 : NnNum} {o i : Nat} {pf : PFromBody} (hI : NnInv b m0 o i pf) (e : Nat)
+    (hst : pf.state = .paramValEnd ∨ pf.state = .possibleValEnd) :
+    NnOut b m0 o i (((setFromParamVal b pf).extParams e).extV e) := by
+  obtain ⟨h1, h2, h3, h4, h5, h6⟩ := hI
+  refine NnOut.congr (pf := setFromParamVal b pf) ?_ rfl
+  have h5' : o ≤ pf.pstart ∧ pf.pstart < pf.pend ∧ pf.pend < pf.vstart ∧ pf.vstart < pf.vend := by
+    rcases hst with g | g <;> simpa only [g, nnPend] using h5
+  exact nn_sfp_out _ h2 h3 h4 ⟨h5'.1, h5'.2.1, h3, Or.inr ⟨h5'.2.2.1, h5'.2.2.2, h4⟩⟩ h6
+
+/-- **label `endOfHdr`**: whatever the state, the returned object satisfies `NnOut`.  `e` is the end of the value: the
+    current position, or (new `,` case after white space) the saved end of the last name / value. -/
+theorem nn_eoh (h : Nat) {b : Buf} {m0 : NnNum} {o i : Nat} {pf : PFromBody} (hI : NnInv b m0 o i pf) (e n crl : Nat) (r : Err)
+    (he : e = i ∨ pf.state = .paramNameEnd ∨ pf.state = .possibleParamNameEnd ∨ pf.state = .paramValEnd ∨
+      pf.state = .possibleValEnd) (hin : i ≤ n + crl) (hn : n + crl ≤ b.size) :
+    NnOut b m0 o (naEOH h b pf e n crl r).1 (naEOH h b pf e n crl r).2.2 := by
+  rw [naEOH_fst]
+  refine NnOut.mono (i := i) ?_ hin hn
+  have fin_out : ∀ p : PFromBody, NnOut b m0 o i p → NnOut b m0 o i { p with state := .fin, soffs := 0, type := h } :=
+    fun p hp => hp.congr rfl
+  unfold naEOH
+  cases hst : pf.state <;> simp only [naFinish]
+  all_goals first
+    | exact fin_out _ hI.out
+    | exact hI.out
+    | exact fin_out _ (hI.out.congr rfl)
+    | exact fin_out _ (nn_eohPN hI e (Or.inl hst))
+    | exact fin_out _ (nn_eohPN hI e (Or.inr (Or.inl hst)))
+    | exact fin_out _ (nn_eohPN hI e (Or.inr (Or.inr (Or.inr (Or.inl hst)))))
+    | exact fin_out _ (nn_eohPN hI e (Or.inr (Or.inr (Or.inr (Or.inr hst)))))
+    | exact fin_out _ (nn_eohPVE hI e (Or.inl hst))
+    | exact fin_out _ (nn_eohPVE hI e (Or.inr hst))
+    | (have hE : e = i := by
+         rcases he with he | he | he | he | he <;> first | exact he | (rw [hst] at he; cases he)
+       subst hE
+       first
+         | exact fin_out _ (nn_eohPN hI e (Or.inr (Or.inr (Or.inl ⟨Or.inl hst, rfl⟩))))
+         | exact fin_out _ (nn_eohPN hI e (Or.inr (Or.inr (Or.inl ⟨Or.inr hst, rfl⟩))))
+         | exact fin_out _ (nn_eohPV hI (Or.inl hst))
+         | exact fin_out _ (nn_eohPV hI (Or.inr hst))
+         | (rw [← hst]; exact fin_out _ (nn_eohNV hI (Or.inl hst)))
+         | (rw [← hst]; exact fin_out _ (nn_eohNV hI (Or.inr hst))))
+
+/-! #### one step of the loop body -/
+
+/-- what one step guarantees: a continuing step and a MoreBytes exit keep the invariant, every exit satisfies `NnOut` -/
+def nnStepOk (b : Buf) (m0 : NnNum) (o : Nat) : Step PFromBody → Prop
+  | .cont i' st' => NnInv b m0 o i' st'
+  | .done p e st' => NnOut b m0 o p st' ∧ (e = .moreBytes → NnInv b m0 o p st')
+
+theorem nn_ok_cont {b : Buf} {m0 : NnNum} {o i' : Nat} {st' : PFromBody} (hI : NnInv b m0 o i' st') :
+    nnStepOk b m0 o (.cont i' st') := hI
+
+theorem nn_ok_err {b : Buf} {m0 : NnNum} {o p : Nat} {e : Err} {st' : PFromBody} (hout : NnOut b m0 o p st')
+    (he : e ≠ .moreBytes) : nnStepOk b m0 o (.done p e st') := ⟨hout, fun hh => absurd hh he⟩
+
+theorem nn_ok_more {b : Buf} {m0 : NnNum} {o p : Nat} {e : Err} {st' : PFromBody} (hI : NnInv b m0 o p st') :
+    nnStepOk b m0 o (.done p e st') := ⟨hI.out, fun _ => hI⟩
+
+theorem NnInv.saveS {b : Buf} {m0 : NnNum} {o i : Nat} {pf : PFromBody} (h : NnInv b m0 o i pf) : NnInv b m0 o i pf.saveS :=
+  h.congr rfl rfl rfl rfl rfl rfl
+
+theorem nn_eoh_ok (h : Nat) {b : Buf} {m0 : NnNum} {o i : Nat} {pf : PFromBody} (hI : NnInv b m0 o i pf) (e n crl : Nat) (r : Err)
+    (hr : r ≠ .moreBytes)
+    (he : e = i ∨ pf.state = .paramNameEnd ∨ pf.state = .possibleParamNameEnd ∨ pf.state = .paramValEnd ∨
+      pf.state = .possibleValEnd) (hin : i ≤ n + crl) (hn : n + crl ≤ b.size) :
+    nnStepOk b m0 o (.done (naEOH h b pf e n crl r).1 (naEOH h b pf e n crl r).2.1 (naEOH h b pf e n crl r).2.2) :=
+  nn_ok_err (nn_eoh h hI e n crl r he hin hn) (naEOH_ne_more h b pf e n crl r hr)
+
+theorem nn_moreValues (h : Nat) {b : Buf} {m0 : NnNum} {o i : Nat} {pf : PFromBody} (hI : NnInv b m0 o i pf) (hlt : i < b.size) :
+    nnStepOk b m0 o (naMoreValues h b pf i) :=
+  nn_eoh_ok h hI i i 1 .moreValues (by decide) (Or.inl rfl) (by omega) (by omega)
+
+theorem nn_commaAfterWS (h : Nat) {b : Buf} {m0 : NnNum} {o i : Nat} {pf : PFromBody} (hI : NnInv b m0 o i pf) (hlt : i < b.size)
+    (e : Nat) (hst : pf.state = .paramNameEnd ∨ pf.state = .possibleParamNameEnd ∨ pf.state = .paramValEnd ∨
+      pf.state = .possibleValEnd) : nnStepOk b m0 o (naCommaAfterWS h b pf i e) := by
+  unfold naCommaAfterWS
+  split
+  · exact nn_eoh_ok h hI e i 1 .moreValues (by decide) (Or.inr hst) (by omega) (by omega)
+  · exact nn_ok_err hI.out (by decide)
+
+theorem nn_naLWS (h : Nat) {b : Buf} {m0 : NnNum} {o i : Nat} {pf : PFromBody} (hI : NnInv b m0 o i pf) :
+    nnStepOk b m0 o (naLWS h b i pf) := by
+  unfold naLWS lwsStd
+  rcases hsk : skipLWS b i 0 with ⟨n, crl, e1⟩
+  have hr := skipLWS_range b i 0 hsk
+  have hv := skipLWS_verdicts b i 0 hsk
+  rcases hv with rfl | rfl | rfl | rfl <;> simp only
+  · exact hI.mono hr.1 (hr.2 hI.hi)
+  · have hrg := skipLWS_eoh_range b i 0 hsk (by decide)
+    exact nn_eoh_ok h hI i n crl .ok (by decide) (Or.inl rfl) (by omega) (by omega)
+  · exact nn_ok_err (hI.mono hr.1 (hr.2 hI.hi)).out (by decide)
+  · exact nn_ok_more (hI.mono hr.1 (hr.2 hI.hi)).saveS
+
+/-- splits a conjunction of (in)equalities and closes each part -/
+macro "nn_arith" : tactic =>
+  `(tactic| ((repeat' apply And.intro) <;> first | trivial | omega | assumption))
+
+/-- closes `NnInv … pf'` for an explicitly updated object from the destructured invariant of `pf` (`h5`, its `nnPend`
+    fact, already simplified with the state equation `g`; `h6` its `NnAcc` fact) -/
+macro "nn_close" g:ident h6:ident : tactic =>
+  `(tactic| (refine ⟨?_, ?_, ?_, ?_, ?_, NnAcc.mono $h6 (by omega)⟩
+             · omega
+             · omega
+             · first | omega | (dsimp only [PFromBody.setURI, PFromBody.setName, PFromBody.setV, PFromBody.extV,
+                 PFromBody.extParams, PFromBody.resetUPT]; omega)
+             · first | omega | (dsimp only [PFromBody.setURI, PFromBody.setName, PFromBody.setV, PFromBody.extV,
+                 PFromBody.extParams, PFromBody.resetUPT]; omega)
+             · (simp only [nnPend, $g:ident, PFromBody.setURI, PFromBody.setName, PFromBody.setV, PFromBody.extV,
+                 PFromBody.extParams, PFromBody.resetUPT]; nn_arith)))
+
+theorem nn_stepA (h : Nat) {b : Buf} {m0 : NnNum} {o i : Nat} {pf : PFromBody} (c : UInt8) (hb : b[i]? = some c)
+    (hI : NnInv b m0 o i pf)
+    (hg : pf.state = .init ∨ pf.state = .name ∨ pf.state = .nameOrURI ∨ pf.state = .nameOrURIEnd) :
+    nnStepOk b m0 o (naStepA h b i c pf) := by
+  have hib := get?_lt hb
+  have hI' := hI
+  obtain ⟨h1, h2, h3, h4, h5, h6⟩ := hI
+  unfold naStepA
+  rcases hg with g | g | g | g <;> simp only [nnPend, g] at h5 <;> simp +decide only [g, ↓reduceIte] <;> repeat' split
+  all_goals first
+    | exact nn_naLWS h hI'
+    | exact nn_moreValues h hI' hib
+    | exact nn_ok_err hI'.out (by decide)
+    | (refine nn_naLWS h ?_; nn_close g h6)
+    | (refine nn_ok_cont ?_; nn_close g h6)
+
+theorem nn_stepQ (h : Nat) {b : Buf} {m0 : NnNum} {o i : Nat} {pf : PFromBody} (c : UInt8) (hb : b[i]? = some c)
+    (hI : NnInv b m0 o i pf)
+    (hg : pf.state = .quoted ∨ pf.state = .quotedVal ∨ pf.state = .quotedPossibleVal) :
+    nnStepOk b m0 o (naStepQ h b i c pf) := by
+  have hib := get?_lt hb
+  have hI' := hI
+  obtain ⟨h1, h2, h3, h4, h5, h6⟩ := hI
+  unfold naStepQ
+  rcases hg with g | g | g <;> simp only [nnPend, g] at h5 <;> simp +decide only [g, ↓reduceIte] <;> repeat' split
+  all_goals first
+    | exact nn_naLWS h hI'
+    | exact nn_ok_more hI'.saveS
+    | (have hq := get?_lt (by assumption : b[i + 1]? = some _)
+       first
+         | exact nn_ok_err (hI'.out.mono (by omega) (by omega)) (by decide)
+         | exact nn_ok_cont (hI'.mono (by omega) (by omega)))
+    | (refine nn_ok_cont ?_; nn_close g h6)
+
+theorem nn_stepU {b : Buf} {m0 : NnNum} {o i : Nat} {pf : PFromBody} (c : UInt8) (hb : b[i]? = some c)
+    (hI : NnInv b m0 o i pf) (g : pf.state = .uri) : nnStepOk b m0 o (naStepU i c pf) := by
+  have hib := get?_lt hb
+  have hI' := hI
+  obtain ⟨h1, h2, h3, h4, h5, h6⟩ := hI
+  simp only [nnPend, g] at h5
+  unfold naStepU
+  repeat' split
+  all_goals first
+    | exact nn_ok_err hI'.out (by decide)
+    | (refine nn_ok_cont ?_; nn_close g h6)
+
+theorem nn_stepUF (h : Nat) {b : Buf} {m0 : NnNum} {o i : Nat} {pf : PFromBody} (c : UInt8) (hb : b[i]? = some c)
+    (hI : NnInv b m0 o i pf) (g : pf.state = .uriFound) : nnStepOk b m0 o (naStepUF h b i c pf) := by
+  have hib := get?_lt hb
+  have hI' := hI
+  obtain ⟨h1, h2, h3, h4, h5, h6⟩ := hI
+  simp only [nnPend, g] at h5
+  unfold naStepUF
+  repeat' split
+  all_goals first
+    | exact nn_naLWS h hI'
+    | exact nn_moreValues h hI' hib
+    | (refine nn_ok_cont ?_; nn_close g h6)
+
+theorem nn_stepStar (h : Nat) {b : Buf} {m0 : NnNum} {o i : Nat} {pf : PFromBody} (c : UInt8)
+    (hI : NnInv b m0 o i pf) : nnStepOk b m0 o (naStepStar h b i c pf) := by
+  unfold naStepStar
+  split
+  · exact nn_naLWS h hI
+  · exact nn_ok_err hI.out (by decide)
+
+/-! #### parameter names -/
+
+/-- a parameter without value text ends at `;` -/
+theorem nn_sfp_flag {b : Buf} {m0 : NnNum} {o i : Nat} (pf : PFromBody) (hoi : o ≤ i) (hib : i < b.size)
+    (h1 : o ≤ pf.pstart) (h2 : pf.pstart < pf.pend) (h3 : pf.pend ≤ i) (h4 : pf.vend ≤ i) (h5 : pf.vstart = pf.vend)
+    (hacc : NnAcc b m0 o i pf.nnNum) (hst : pf.state = .newParam ∨ pf.state = .newPossibleParam) :
+    NnInv b m0 o (i + 1) (setFromParamVal b pf) :=
+  nn_sfp_inv pf hoi (by omega) h3 h4 ⟨h1, h2, h3, Or.inl h5⟩ hacc hst (by omega) (by omega)
+
+/-- a parameter with `=` ends at `;` (the value text may be empty) -/
+theorem nn_sfp_val {b : Buf} {m0 : NnNum} {o i : Nat} (pf : PFromBody) (hoi : o ≤ i) (hib : i < b.size)
+    (h1 : o ≤ pf.pstart) (h2 : pf.pstart < pf.pend) (h3 : pf.pend < pf.vstart) (h4 : pf.vstart ≤ pf.vend) (h5 : pf.vend ≤ i)
+    (hacc : NnAcc b m0 o i pf.nnNum) (hst : pf.state = .newParam ∨ pf.state = .newPossibleParam) :
+    NnInv b m0 o (i + 1) (setFromParamVal b pf) := by
+  refine nn_sfp_inv pf hoi (by omega) (by omega) h5 ⟨h1, h2, by show pf.pend ≤ i; omega, ?_⟩ hacc hst (by omega) (by omega)
+  rcases Nat.lt_or_ge pf.vstart pf.vend with hlt | hge
+  · exact Or.inr ⟨h3, hlt, h5⟩
+  · exact Or.inl (by show pf.vstart = pf.vend; omega)
+
+theorem nn_nameWS {b : Buf} {m0 : NnNum} {o i : Nat} {pf : PFromBody} (hI : NnInv b m0 o i pf)
+    (hg : pf.state = .newParam ∨ pf.state = .newPossibleParam ∨ pf.state = .paramName ∨ pf.state = .possibleParamName) :
+    NnInv b m0 o i (naNameWS pf i) := by
+  obtain ⟨h1, h2, h3, h4, h5, h6⟩ := hI
+  unfold naNameWS
+  rcases hg with g | g | g | g <;> simp only [nnPend, g] at h5 <;> simp +decide only [g, ↓reduceIte] <;> nn_close g h6
+
+theorem nn_paramStart {b : Buf} {m0 : NnNum} {o i : Nat} {pf : PFromBody} (hI : NnInv b m0 o i pf) (hib : i < b.size)
+    (hg : pf.state = .newParam ∨ pf.state = .newPossibleParam ∨ pf.state = .paramName ∨ pf.state = .possibleParamName) :
+    NnInv b m0 o (i + 1) (naParamsOffs (naParamStart pf i) i) := by
+  obtain ⟨h1, h2, h3, h4, h5, h6⟩ := hI
+  unfold naParamsOffs naParamStart
+  rcases hg with g | g | g | g <;> simp only [nnPend, g] at h5 <;> simp +decide only [g, ↓reduceIte] <;> split <;>
+    nn_close g h6
+
+/-- `case fbNewParam, fbNewPossibleParam, fbParamName, fbPossibleParamName:` -/
+theorem nn_stepP (h : Nat) {b : Buf} {m0 : NnNum} {o i : Nat} {pf : PFromBody} (c : UInt8) (hb : b[i]? = some c)
+    (hI : NnInv b m0 o i pf)
+    (hg : pf.state = .newParam ∨ pf.state = .newPossibleParam ∨ pf.state = .paramName ∨ pf.state = .possibleParamName) :
+    nnStepOk b m0 o (naStepP h b i c pf) := by
+  have hib := get?_lt hb
+  have hI' := hI
+  have hW := nn_nameWS hI hg
+  have hS := nn_paramStart hI hib hg
+  obtain ⟨h1, h2, h3, h4, h5, h6⟩ := hI
+  unfold naStepP
+  split
+  · rcases hsk : skipLWS b i 0 with ⟨n, crl, e1⟩
+    have hr := skipLWS_range b i 0 hsk
+    have hv := skipLWS_verdicts b i 0 hsk
+    rcases hv with rfl | rfl | rfl | rfl <;> simp only
+    · exact nn_ok_cont (hW.mono hr.1 (hr.2 h2))
+    · have hrg := skipLWS_eoh_range b i 0 hsk (by decide)
+      exact nn_eoh_ok h hW i n crl .ok (by decide) (Or.inl rfl) (by omega) (by omega)
+    · exact nn_ok_err (hW.mono hr.1 (hr.2 h2)).out (by decide)
+    · exact nn_ok_more hI'.saveS
+  · rcases hg with g | g | g | g <;> simp only [nnPend, g] at h5 <;> simp +decide only [g, ↓reduceIte] <;> repeat' split
+    all_goals first
+      | exact nn_moreValues h hI' hib
+      | exact nn_ok_err hI'.out (by decide)
+      | exact nn_ok_cont hS
+      | (refine nn_ok_cont (nn_sfp_flag _ h1 hib ?_ ?_ ?_ ?_ ?_ h6 (by first | exact Or.inl rfl | exact Or.inr rfl)) <;>
+           first | omega | (dsimp only; omega))
+      | (refine nn_ok_cont ?_; nn_close g h6)
+
+/-- `case fbParamNameEnd, fbPossibleParamNameEnd:` -/
+theorem nn_stepPE (h : Nat) {b : Buf} {m0 : NnNum} {o i : Nat} {pf : PFromBody} (c : UInt8) (hb : b[i]? = some c)
+    (hI : NnInv b m0 o i pf) (hg : pf.state = .paramNameEnd ∨ pf.state = .possibleParamNameEnd) :
+    nnStepOk b m0 o (naStepPE h b i c pf) := by
+  have hib := get?_lt hb
+  have hI' := hI
+  have hC := nn_commaAfterWS h hI hib pf.pend (by rcases hg with g | g <;> simp [g])
+  obtain ⟨h1, h2, h3, h4, h5, h6⟩ := hI
+  unfold naStepPE
+  rcases hg with g | g <;> simp only [nnPend, g] at h5 <;> simp +decide only [g, ↓reduceIte] <;> repeat' split
+  all_goals first
+    | exact hC
+    | exact nn_ok_err hI'.out (by decide)
+    | (refine nn_ok_cont (nn_sfp_flag _ h1 hib ?_ ?_ ?_ ?_ ?_ h6 (by first | exact Or.inl rfl | exact Or.inr rfl)) <;>
+         first | omega | (dsimp only; omega))
+    | (refine nn_ok_cont ?_; nn_close g h6)
+
+/-! #### parameter values -/
+
+theorem nn_valWS_true {b : Buf} {m0 : NnNum} {o i n : Nat} {pf : PFromBody} (hI : NnInv b m0 o i pf) (hin : i ≤ n)
+    (hn : n ≤ b.size)
+    (hg : pf.state = .newParamVal ∨ pf.state = .newPossibleVal ∨ pf.state = .paramVal ∨ pf.state = .possibleVal) :
+    NnInv b m0 o n (naValWS pf i n true) := by
+  obtain ⟨h1, h2, h3, h4, h5, h6⟩ := hI
+  unfold naValWS
+  rcases hg with g | g | g | g <;> simp only [nnPend, g] at h5 <;> simp +decide only [g, ↓reduceIte] <;> nn_close g h6
+
+theorem nn_valWS_false {b : Buf} {m0 : NnNum} {o i n : Nat} {pf : PFromBody} (hI : NnInv b m0 o i pf)
+    (hg : pf.state = .newParamVal ∨ pf.state = .newPossibleVal ∨ pf.state = .paramVal ∨ pf.state = .possibleVal) :
+    NnInv b m0 o i (naValWS pf i n false) := by
+  obtain ⟨h1, h2, h3, h4, h5, h6⟩ := hI
+  unfold naValWS
+  rcases hg with g | g | g | g <;> simp only [nnPend, g] at h5 <;> simp +decide only [g, ↓reduceIte] <;> nn_close g h6
+
+/-- `case fbNewParamVal, fbNewPossibleVal, fbParamVal, fbPossibleVal:` -/
+theorem nn_stepV (h : Nat) {b : Buf} {m0 : NnNum} {o i : Nat} {pf : PFromBody} (c : UInt8) (hb : b[i]? = some c)
+    (hI : NnInv b m0 o i pf)
+    (hg : pf.state = .newParamVal ∨ pf.state = .newPossibleVal ∨ pf.state = .paramVal ∨ pf.state = .possibleVal) :
+    nnStepOk b m0 o (naStepV h b i c pf) := by
+  have hib := get?_lt hb
+  have hI' := hI
+  obtain ⟨h1, h2, h3, h4, h5, h6⟩ := hI
+  unfold naStepV
+  split
+  · rcases hsk : skipLWS b i 0 with ⟨n, crl, e1⟩
+    have hr := skipLWS_range b i 0 hsk
+    have hv := skipLWS_verdicts b i 0 hsk
+    have hF := nn_valWS_false (n := n) hI' hg
+    rcases hv with rfl | rfl | rfl | rfl <;> simp only
+    · exact nn_ok_cont (nn_valWS_true hI' hr.1 (hr.2 h2) hg)
+    · have hrg := skipLWS_eoh_range b i 0 hsk (by decide)
+      exact nn_eoh_ok h hF i n crl .ok (by decide) (Or.inl rfl) (by omega) (by omega)
+    · exact nn_ok_err (hF.mono hr.1 (hr.2 h2)).out (by decide)
+    · exact nn_ok_more hI'.saveS
+  · rcases hg with g | g | g | g <;> simp only [nnPend, g] at h5 <;> simp +decide only [g, ↓reduceIte] <;> repeat' split
+    all_goals first
+      | exact nn_moreValues h hI' hib
+      | exact nn_ok_err hI'.out (by decide)
+      | (refine nn_ok_cont (nn_sfp_val _ h1 hib ?_ ?_ ?_ ?_ ?_ h6 (by first | exact Or.inl rfl | exact Or.inr rfl)) <;>
+           first | omega | (dsimp only; omega))
+      | (refine nn_ok_cont ?_; nn_close g h6)
+
+/-- `case fbParamValEnd, fbPossibleValEnd:` -/
+theorem nn_stepVE (h : Nat) {b : Buf} {m0 : NnNum} {o i : Nat} {pf : PFromBody} (c : UInt8) (hb : b[i]? = some c)
+    (hI : NnInv b m0 o i pf) (hg : pf.state = .paramValEnd ∨ pf.state = .possibleValEnd) :
+    nnStepOk b m0 o (naStepVE h b i c pf) := by
+  have hib := get?_lt hb
+  have hI' := hI
+  have hC := nn_commaAfterWS h hI hib pf.vend (by rcases hg with g | g <;> simp [g])
+  obtain ⟨h1, h2, h3, h4, h5, h6⟩ := hI
+  unfold naStepVE
+  rcases hg with g | g <;> simp only [nnPend, g] at h5 <;> simp +decide only [g, ↓reduceIte] <;> repeat' split
+  all_goals first
+    | exact hC
+    | exact nn_ok_err hI'.out (by decide)
+    | (refine nn_ok_cont (nn_sfp_val _ h1 hib ?_ ?_ ?_ ?_ ?_ h6 (by first | exact Or.inl rfl | exact Or.inr rfl)) <;>
+         first | omega | (dsimp only; omega))
+    | (refine nn_ok_cont ?_; nn_close g h6)
+
+/-- **every step of the loop body**: a continuing step and a MoreBytes exit keep the invariant, every exit satisfies `NnOut` -/
+theorem nn_step (h : Nat) {b : Buf} {m0 : NnNum} {o i : Nat} {pf : PFromBody} (c : UInt8) (hb : b[i]? = some c)
+    (hI : NnInv b m0 o i pf) : nnStepOk b m0 o (naStep h b i c pf) := by
+  have hib := get?_lt hb
+  unfold naStep
+  cases hst : pf.state <;> simp only
+  all_goals first
+    | exact nn_stepA h c hb hI (by simp only [hst]; decide)
+    | exact nn_stepQ h c hb hI (by simp only [hst]; decide)
+    | exact nn_stepU c hb hI hst
+    | exact nn_stepUF h c hb hI hst
+    | exact nn_stepP h c hb hI (by simp only [hst]; decide)
+    | exact nn_stepPE h c hb hI (by simp only [hst]; decide)
+    | exact nn_stepV h c hb hI (by simp only [hst]; decide)
+    | exact nn_stepVE h c hb hI (by simp only [hst]; decide)
+    | exact nn_stepStar h c hI
+    | exact nn_ok_cont (hI.mono (by omega) (by omega))
+
+/-! ### the loop and ParseNameAddrPVal -/
+
+theorem nn_runLoop (h : Nat) (b : Buf) (m0 : NnNum) (o i : Nat) (pf : PFromBody) (hI : NnInv b m0 o i pf) :
+    NnOut b m0 o (runLoop (naMachine h) b i pf).1 (runLoop (naMachine h) b i pf).2.2 ∧
+    ((runLoop (naMachine h) b i pf).2.1 = .moreBytes →
+      NnInv b m0 o (runLoop (naMachine h) b i pf).1 (runLoop (naMachine h) b i pf).2.2) := by
+  refine runLoop_inv (naMachine h) b (NnInv b m0 o)
+    (fun r => NnOut b m0 o r.1 r.2.2 ∧ (r.2.1 = .moreBytes → NnInv b m0 o r.1 r.2.2)) ?_ ?_ ?_ i pf hI
+  · intro i c st i' st' hb hP hs
+    have hk := nn_step h c hb hP
+    change naStep h b i c st = .cont i' st' at hs
+    rw [hs] at hk
+    exact ⟨fun _ => hk, fun hn => absurd (na_progress h b i c st i' st' hb hs) hn⟩
+  · intro i c st o1 e1 st1 hb hP hs
+    have hk := nn_step h c hb hP
+    change naStep h b i c st = .done o1 e1 st1 at hs
+    rw [hs] at hk
+    exact hk
+  · intro i st _ hP
+    exact ⟨hP.saveS.out, fun _ => hP.saveS⟩
+
+/-- **ParseNameAddrPVal, any header kind, any buffer, any verdict**: if the object passed in satisfies the invariant
+    (a new object does, `nn_entry_new`; so does an object returned with MoreBytes), the numeric fields of the returned
+    object are the fold of `nnEffect` over a list of parameter spans lying in `[o, o')`; after MoreBytes the object
+    satisfies the invariant again. -/
+theorem nn_parse (h : Nat) (b : Buf) (m0 : NnNum) (o offs : Nat) (pf : PFromBody) (hE : NnInv b m0 o offs pf)
+    {o' : Nat} {e : Err} {pf' : PFromBody} (hr : parseNameAddrPVal h b offs pf = (o', e, pf')) :
+    NnOut b m0 o o' pf' ∧ (e = .moreBytes → NnInv b m0 o o' pf') := by
+  unfold parseNameAddrPVal at hr
+  split at hr
+  · cases hr
+    exact ⟨hE.out, fun hh => by cases hh⟩
+  · simp only [Prod.mk.injEq] at hr
+    obtain ⟨rfl, rfl, rfl⟩ := hr
+    have key := nn_runLoop h b m0 o offs { pf with s := pf.soffs, soffs := 0 } (hE.congr rfl rfl rfl rfl rfl rfl)
+    have hx : ∀ (e : Err) (p : PFromBody), (naExit pf.soffs e p).nnNum = p.nnNum ∧ (naExit pf.soffs e p).state = p.state ∧
+        (naExit pf.soffs e p).pstart = p.pstart ∧ (naExit pf.soffs e p).pend = p.pend ∧
+        (naExit pf.soffs e p).vstart = p.vstart ∧ (naExit pf.soffs e p).vend = p.vend := by
+      intro e p; unfold naExit; split <;> exact ⟨rfl, rfl, rfl, rfl, rfl, rfl⟩
+    obtain ⟨x1, x2, x3, x4, x5, x6⟩ := hx (runLoop (naMachine h) b offs { pf with s := pf.soffs, soffs := 0 }).2.1
+      (runLoop (naMachine h) b offs { pf with s := pf.soffs, soffs := 0 }).2.2
+    exact ⟨key.1.congr x1, fun hm => (key.2 hm).congr x2 x3 x4 x5 x6 x1⟩
+
+/-- a new object may be passed at any offset inside the buffer -/
+theorem nn_entry_new (b : Buf) (o : Nat) (ho : o ≤ b.size) : NnInv b {} o o {} :=
+  ⟨Nat.le_refl _, ho, Nat.zero_le _, Nat.zero_le _, ⟨Nat.le_refl _, rfl⟩, ⟨[], rfl, fun x hx => by cases hx⟩⟩
+
 end Sipsp
